@@ -13,6 +13,7 @@ pub mod c13;
 pub mod c14;
 pub mod c16;
 pub mod c17;
+pub mod c18;
 pub mod c19;
 
 use crate::run::Cfg;
@@ -34,6 +35,7 @@ pub fn dispatch(cfg: &Cfg) -> i32 {
         "C14" => c14::run(cfg),
         "C16" => c16::run(cfg),
         "C17" => c17::run(cfg),
+        "C18" => c18::run(cfg),
         "C19" => c19::run(cfg),
         other => {
             eprintln!("unknown property {other}");
